@@ -60,6 +60,7 @@ class Unit:
         self.assumes = list(assumes)
         self.reveal = ()
         self.ghost_params = ()
+        self.obligation_props = []
         self.local_types = {}
         self.ghost_const = ()
         self.ghost_havoc = None
@@ -492,7 +493,16 @@ class Registry:
             elif p in getattr(con, "defaults", {}):
                 vals[p] = con.defaults[p]
             elif p in getattr(con, "ghost_params", ()):
-                vals[p] = sx.fresh(con.params[p], "ghost_" + p, st)
+                # ghost parameters are threaded by name: the caller's own arbitrary witness if it has one
+                cur = None
+                for fr in reversed(st.frames):
+                    if p in fr:
+                        cur = fr[p]
+                        break
+                if cur is not None and isinstance(cur, Val) and getattr(cur, "ty", None) == con.params[p]:
+                    vals[p] = cur
+                else:
+                    vals[p] = sx.fresh(con.params[p], "ghost_" + p, st)
             else:
                 raise Unsupported("missing argument %s for contract %s" % (p, con.qual), node)
         # coerce argument shapes
@@ -560,7 +570,7 @@ PURE_METHODS = {
     "lower", "upper", "startswith", "endswith", "hex", "encode", "decode", "replace", "strip", "isalnum", "join", "split",
     "format", "get", "items", "keys", "values", "to_bytes", "bit_length", "intersection", "union", "fromhex", "has_tag",
     "verify", "from_bytes", "translate", "first", "fetchone", "isoformat", "time", "perf_counter", "key",
-    "match", "fullmatch", "search", "compile", "isdigit", "isalpha", "hexdigest", "digest", "count", "index", "find",
+    "model_validate", "match", "fullmatch", "search", "compile", "isdigit", "isalpha", "hexdigest", "digest", "count", "index", "find",
 }
 LOG_METHODS = {"debug", "info", "warning", "error", "exception", "critical", "log", "getLogger"}
 
